@@ -7,6 +7,7 @@ package main
 import (
 	"bufio"
 	"fmt"
+	"reflect"
 	"strconv"
 	"strings"
 	"sync/atomic"
@@ -23,6 +24,8 @@ import (
 )
 
 type c15case struct {
+	Kind   string   `json:"kind,omitempty"` // "" (search / index / identify), "tables", "wrap"
+	Full   bool     `json:"full,omitempty"` // wrap: also run obitag.FindClosests (one unbounded alignment of two 65 kb sequences)
 	Q      string   `json:"q"`
 	Refs   []string `json:"refs"`
 	Taxids []int    `json:"taxids"` // taxid of each reference
@@ -36,7 +39,11 @@ type c15fc struct {
 	Maxe      int     `json:"maxe"`
 	BestId    float64 `json:"bestid"`
 	BestMatch string  `json:"bestmatch"`
-	Err       string  `json:"err,omitempty"`
+	// bests[i] is references[idxs[i]] for every i and both have the same length (Identify indexes references[seqidxs[i]]
+	// and stores the result on it while it reads the index of bests[i])
+	PairOK  bool     `json:"pairok"`
+	BestIds []string `json:"bestids"`
+	Err     string   `json:"err,omitempty"`
 }
 
 type c15obs struct {
@@ -158,11 +165,19 @@ func c15find0(f c15finder, q *obiseq.BioSequence, refs obiseq.BioSequenceSlice, 
 			o = c15fc{Kind: "panic", Err: fmt.Sprint(r)}
 		}
 	}()
-	_, maxe, bestid, bestmatch, idxs := f(q, refs, counts, false)
+	bests, maxe, bestid, bestmatch, idxs := f(q, refs, counts, false)
 	if idxs == nil {
 		idxs = []int{}
 	}
-	return c15fc{Kind: "ok", Idxs: idxs, Maxe: maxe, BestId: bestid, BestMatch: bestmatch}
+	pair := len(bests) == len(idxs)
+	ids := make([]string, 0, len(bests))
+	for i, b := range bests {
+		ids = append(ids, b.Id())
+		if i >= len(idxs) || idxs[i] < 0 || idxs[i] >= len(refs) || refs[idxs[i]] != b {
+			pair = false
+		}
+	}
+	return c15fc{Kind: "ok", Idxs: idxs, Maxe: maxe, BestId: bestid, BestMatch: bestmatch, PairOK: pair, BestIds: ids}
 }
 
 func c15index(i int, refs obiseq.BioSequenceSlice, counts []*obikmer.Table4mer, taxa obitax.TaxonSet, taxo *obitax.Taxonomy) (m map[string]int, kind string) {
@@ -206,6 +221,62 @@ func c15identify0(q *obiseq.BioSequence, refs obiseq.BioSequenceSlice, counts []
 	}()
 	s := obitag.Identify(q, refs, counts, taxa, taxo, false)
 	return s.Taxid(), "ok", ""
+}
+
+// c15tables dumps the parts of the code the model is regenerated from: the base-code table of Encode4mer and the
+// width of a Table4mer cell.
+func c15tables() map[string]any {
+	var t obikmer.Table4mer
+	tab := obikmer.VerifC15SingleBaseCode()
+	codes := make([]int, len(tab))
+	for i, b := range tab {
+		codes[i] = int(b)
+	}
+	return map[string]any{"kind": "tables", "base_code": codes, "cell_bits": reflect.TypeOf(t).Elem().Bits(), "cells": len(t)}
+}
+
+// c15wrap: sequences long enough for a 4-mer counter to wrap. The unbounded kernel is quadratic (and packs the path
+// length in 16 bits): distances are established by D1Or0 only (-1 = more than one difference).
+func c15wrap(c c15case) map[string]any {
+	q := c15seq("q", c.Q, 1)
+	refs := obiseq.MakeBioSequenceSlice()
+	counts := make([]*obikmer.Table4mer, len(c.Refs))
+	qw := obikmer.Count4Mer(q, nil, nil)
+	cw := make([]int, len(c.Refs))
+	d1 := make([]int, len(c.Refs))
+	self := make([]int, len(c.Refs))
+	for i, s := range c.Refs {
+		r := c15seq("r"+strconv.Itoa(i), s, 1)
+		refs = append(refs, r)
+		counts[i] = obikmer.Count4Mer(r, nil, nil)
+		cw[i] = obikmer.Common4Mer(qw, counts[i])
+		self[i] = obikmer.Common4Mer(counts[i], counts[i])
+		d1[i], _, _, _ = obialign.D1Or0(q, r)
+	}
+	o := map[string]any{"kind": "wrap", "cw": cw, "d1": d1, "self": self}
+	if c.Full {
+		var fc c15fc
+		func() {
+			defer func() {
+				if r := recover(); r != nil {
+					fc = c15fc{Kind: "panic", Err: fmt.Sprint(r)}
+				}
+			}()
+			fc = c15find0(obitag.FindClosests, q, refs, counts)
+		}()
+		o["fc"] = fc
+	}
+	return o
+}
+
+func c15any(c c15case) any {
+	switch c.Kind {
+	case "tables":
+		return c15tables()
+	case "wrap":
+		return c15wrap(c)
+	}
+	return c15run(c)
 }
 
 func c15run(c c15case) (o c15obs) {
@@ -312,6 +383,6 @@ func c15run(c c15case) (o c15obs) {
 
 func init() {
 	register("c15", func(in *bufio.Reader, out *bufio.Writer) error {
-		return eachLine(in, out, func(c c15case) any { return c15run(c) })
+		return eachLine(in, out, func(c c15case) any { return c15any(c) })
 	})
 }
